@@ -16,6 +16,46 @@ RESERVED = set(keyword.kwlist) | {'int', 'str', 'float', 'bool', 'list', 'dict',
                                   'auto', 'const', 'void', 'char', 'double', 'long', 'short', 'signed', 'unsigned', 'struct', 'union', 'this', 'new', 'delete', 'template', 'typename', 'namespace', 'public', 'private', 'protected', 'virtual', 'static'}
 
 
+# hand-written programs renamed systematically (one identifier at a time): class variables and fields with leading underscores
+# (the accessor is derived from them: the underscores are kept), a closure that holds a comprehension, single-letter names
+DIRECTED_PROGRAMS = [
+    ("""from typing import ClassVar
+
+class Counter:
+\t_step: ClassVar[int] = 1
+\t__seen: ClassVar[int] = 0
+\tlimit: ClassVar[int] = 9
+\t_own: int
+
+\tdef __init__(self, n: int) -> None:
+\t\tself._own = n
+
+\tdef bump(self, d: int) -> int:
+\t\treturn self._own + Counter._step + Counter.__seen + d
+
+def run(n: int, d: int) -> int:
+\txs = [n, d]
+\ti = n + 1
+\tdef inner(b: int) -> int:
+\t\tys = [idx + b for idx in xs]
+\t\treturn len(ys) + d + i + n
+\treturn inner(1) + Counter(n).bump(d)
+""", ['Counter', '_step', '__seen', 'limit', '_own', 'bump', 'run', 'xs', 'inner', 'ys', 'idx', 'n', 'd', 'i', 'b']),
+]
+
+
+def directed_renamings(src, names):
+    used = set(re.findall(r'\b[A-Za-z_]\w*\b', src))
+    letters = sorted({c for n in names for c in n.strip('_') if c.isalpha()})
+    for n in names:
+        lead = n[:len(n) - len(n.lstrip('_'))]
+        base = n[len(lead):]
+        for new in [base + '2', base + '_v1', 'x' + base, base + base, base[:1] + '9'] + letters[::2]:
+            new = lead + new
+            if new not in used and new not in RESERVED and new != n:
+                yield {n: new}
+
+
 def rename(text, mapping):
     return re.sub(r'\b[A-Za-z_]\w*\b', lambda m: mapping.get(m.group(0), m.group(0)), text)
 
@@ -92,6 +132,11 @@ def run(ctx: Ctx) -> None:
             for mp in ({fn_name: cls_name + '_build'}, {cls_name: fn_name[:-1]} if len(fn_name) > 2 else {}):
                 if mp and not (set(mp.values()) & (used | RESERVED)) and set(mp) <= set(names):
                     jobs.append((p, names, mp))
+    import types
+    for src, names in DIRECTED_PROGRAMS:
+        dp = types.SimpleNamespace(src=src, names=names)
+        for mapping in directed_renamings(src, names):
+            jobs.append((dp, names, mapping))
     outs = {}
     for i, (p, names, mapping) in enumerate(jobs):
         targets = list(mapping.values()) + [n for n in names if n not in mapping]
